@@ -64,18 +64,24 @@ def main():
             except Exception:
                 pass
             rec = {"job": job, "model": _m, "known_tags": dict(ctx.known_tags),
-                   "token_values": getattr(ctx, "_last_token_values", {}), "expr": getattr(ctx, "_last_expr", None)}
+                   "token_values": getattr(ctx, "_last_token_values", {}), "expr": getattr(ctx, "_last_expr", None),
+                   "userfun_params": getattr(ctx, "_last_userfun_params", None)}
             if rec["expr"] is None:
                 return {"reproduced": False, "detail": "could not rebuild the step for a snippet"}
-            sn = S.snippet(P, rec, names, nsp)
-            if sn is None:
+            sns = S.snippet_alternatives(P, rec, names, nsp)
+            if not sns:
                 return {"reproduced": False, "detail": "no Garden snippet for this step"}
-            src = (sn[0] + "\n" if sn[0] else "") + sn[1]
 
             def native_part():
-                code, out, err = native.run_c(src)
-                crashed = code == 101 or "panicked at" in err
-                return {"reproduced": crashed, "artefact": src, "detail": f"exit={code} stderr={err[:200]!r}"}
+                last = None
+                for sn in sns:
+                    src = (sn[0] + "\n" if sn[0] else "") + sn[1]
+                    code, out, err = native.run_c(src)
+                    crashed = code == 101 or "panicked at" in err
+                    last = {"reproduced": crashed, "artefact": src, "detail": f"exit={code} stderr={err[:200]!r}"}
+                    if crashed:
+                        return last
+                return last
             return native_part
         C.prove_deferred(f"{label}:no-panic:{p.kind}@{p.line}", r.pc, False, site=site,
                          what=f"step {label} panics: {p}", replay=replay, soft=r.tainted,
